@@ -168,60 +168,38 @@ func init() {
 		return Iface{}, true
 	})
 
-	type smEntry struct{ k, v value }
+	// the content of a sync.Map is an ordinary symbolic map keyed by interface values: lookups with symbolic keys
+	// fork on key equality exactly as those of a Go map do
 	mapKey := func(p value) string { return fmt.Sprintf("syncmap:%p", p.(*value)) }
-	keyOf := func(in *Interp, k value) string {
-		i, ok := k.(Iface)
-		if !ok {
-			panic(engineErr("sync.Map key %T", k))
+	content := func(in *Interp, p value) *MapV {
+		k := mapKey(p)
+		m, _ := in.extra[k].(*MapV)
+		if m == nil {
+			m = &MapV{KeyT: types.NewInterfaceType(nil, nil)}
+			in.extra[k] = m
 		}
-		switch x := i.V.(type) {
-		case *Term:
-			if !x.Const {
-				panic(engineErr("symbolic sync.Map key"))
-			}
-			return fmt.Sprintf("%v:%s", i.T, x.S)
-		case *Str:
-			return fmt.Sprintf("%v:%s", i.T, x.MustConcrete("sync.Map key"))
-		}
-		panic(engineErr("sync.Map key of type %v", i.T))
+		return m
 	}
 	reg("(*sync.Map).Load", func(in *Interp, fn *ssa.Function, args []value) (value, bool) {
-		m, _ := in.extra[mapKey(args[0])].(map[string]value)
-		if v, ok := m[keyOf(in, args[1])]; ok {
-			return Tuple{v, tTrue}, true
+		if e := in.mapFind(content(in, args[0]), args[1]); e != nil {
+			return Tuple{e.V, tTrue}, true
 		}
 		return Tuple{Iface{}, tFalse}, true
 	})
 	reg("(*sync.Map).Store", func(in *Interp, fn *ssa.Function, args []value) (value, bool) {
-		k := mapKey(args[0])
-		m, _ := in.extra[k].(map[string]value)
-		if m == nil {
-			m = map[string]value{}
-			in.extra[k] = m
-		}
-		m[keyOf(in, args[1])] = args[2]
+		in.mapUpdate(content(in, args[0]), args[1], args[2])
 		return nil, true
 	})
 	reg("(*sync.Map).LoadOrStore", func(in *Interp, fn *ssa.Function, args []value) (value, bool) {
-		k := mapKey(args[0])
-		m, _ := in.extra[k].(map[string]value)
-		if m == nil {
-			m = map[string]value{}
-			in.extra[k] = m
+		m := content(in, args[0])
+		if e := in.mapFind(m, args[1]); e != nil {
+			return Tuple{e.V, tTrue}, true
 		}
-		kk := keyOf(in, args[1])
-		if v, ok := m[kk]; ok {
-			return Tuple{v, tTrue}, true
-		}
-		m[kk] = args[2]
+		m.Entries = append(m.Entries, &MapEntry{K: args[1], V: args[2]})
 		return Tuple{args[2], tFalse}, true
 	})
 	reg("(*sync.Map).Delete", func(in *Interp, fn *ssa.Function, args []value) (value, bool) {
-		if m, _ := in.extra[mapKey(args[0])].(map[string]value); m != nil {
-			delete(m, keyOf(in, args[1]))
-		}
+		in.mapDelete(content(in, args[0]), args[1])
 		return nil, true
 	})
-	_ = smEntry{}
 }
